@@ -70,6 +70,7 @@ def run(ctx):
     known = C.load_known("C06")
     for (c1, c2, bad) in viol[:1]:
         ctx.violation({"kind": "property-fails-on-implementation", "crystal_a": c1["crystal"], "crystal_b": c2["crystal"], "sg": c1["sg"],
+                       "tol_a": c1.get("tol", 1e-3), "tol_b": c2.get("tol", 1e-3),
                        "presentation_b": c2["pres"], "failed_clauses": bad, "broken_obligation": broken}, found_input=True)
     for (c, r) in errs[:1]:
         ctx.violation({"kind": "analyzer-raised", "crystal": c["crystal"], "sg": c["sg"], "error": r, "broken_obligation": broken}, found_input=True)
@@ -85,7 +86,7 @@ def run(ctx):
 
 def replay(ctx, rep):
     if "crystal_a" in rep:
-        rows = H.run_impl([{"id": 0, "crystal": rep["crystal_a"]}, {"id": 1, "crystal": rep["crystal_b"]}], jobs=1)
+        rows = H.run_impl([{"id": 0, "crystal": rep["crystal_a"], "tol": rep.get("tol_a", 1e-3)}, {"id": 1, "crystal": rep["crystal_b"], "tol": rep.get("tol_b", 1e-3)}], jobs=1)
         if any("error" in rows[i] for i in (0, 1)) or H.c06_pair_predicate(rows[0], rows[1], rep["sg"], None):
             ctx.violation(rep, found_input=True)
         else:
